@@ -86,6 +86,7 @@ Definition field_pins : list (string * (Z * Z) * option (Z * Z)) :=
    ("thread.stack", (24, 16), fld_at L_MINIDUMP_THREAD N_MINIDUMP_THREAD "stack");
    ("thread.thread_context.data_size", (40, 4), P L_MINIDUMP_THREAD [(N_MINIDUMP_THREAD, "thread_context"); (fst LOC, "data_size")]);
    ("thread.thread_context.rva", (44, 4), P L_MINIDUMP_THREAD [(N_MINIDUMP_THREAD, "thread_context"); (fst LOC, "rva")]);
+   ("thread_info.thread_id", (0, 4), fld_at L_MINIDUMP_THREAD_INFO N_MINIDUMP_THREAD_INFO "thread_id");
    ("thread_name.thread_id", (0, 4), fld_at L_MINIDUMP_THREAD_NAME N_MINIDUMP_THREAD_NAME "thread_id");
    ("thread_name.thread_name_rva", (4, 8), fld_at L_MINIDUMP_THREAD_NAME N_MINIDUMP_THREAD_NAME "thread_name_rva");
    (* modules: modules, unloaded_modules, module_descs *)
